@@ -414,7 +414,7 @@ func (g *docGen) render(n *cnode) string {
 		}
 	case "TW":
 		m := g.marker()
-		return fmt.Sprintf(`<blockquote class="twitter-tweet"><p>%s</p>%s<a href="https://twitter.com/zquser/status/m%d">link</a></blockquote>`, g.words(g.short), g.kidsHTML(n), m)
+		return fmt.Sprintf(`<blockquote class="twitter-tweet"><p>%s</p>%s <a href="https://twitter.com/zquser/status/m%d">link</a></blockquote>`, g.words(g.short), g.kidsHTML(n), m)
 	case "LNK":
 		// a link-dense cluster, one level deeper than its surroundings: boilerplate-looking text
 		var sb strings.Builder
